@@ -7,3 +7,18 @@ impl WakerList {
         self.get(index)
     }
 }
+
+impl WakerList {
+    /// (block size, block align, offset of slot 0, size of a slot, align of a slot, size of the header)
+    pub(crate) fn verif_layout(cap: usize) -> (usize, usize, usize, usize, usize, usize) {
+        let l = WakerList::layout(cap);
+        (
+            l.size(),
+            l.align(),
+            slice_offset(),
+            core::mem::size_of::<WakerItem>(),
+            core::mem::align_of::<WakerItem>(),
+            core::mem::size_of::<WakerHeader>(),
+        )
+    }
+}
